@@ -290,9 +290,14 @@ pub fn run_conn(c: &ConnCase, b: &Built, fault: IoFault, mut on_step: impl FnMut
         }
         step.store(steps, Ordering::SeqCst);
         let _ = on_step(steps, &runner);
-        world.lock().unwrap().cur_poll = steps;
+        {
+            let mut w = world.lock().unwrap();
+            w.cur_poll = steps;
+            w.begin_poll();
+        }
         steps += 1;
-        task.poll_once();
+        let done = task.poll_once();
+        world.lock().unwrap().end_poll(!done);
     };
     drop(task);
     let invocations = sh.log.lock().unwrap().clone();
@@ -496,7 +501,13 @@ pub fn walk(c: &ConnCase, b: &Built, invocations: &[Invocation], observed_ends: 
             Some(Ok(st)) => w.ends.push(Some(st.on_wire())),
             Some(Err(k)) if *k == std::io::ErrorKind::ConnectionAborted => {
                 vensure!(b.kinds[qi] == Kind::StreamAbort, "conn-unexpected-io-error", "request #{qi}: handler saw ConnectionAborted although the client did not abort");
-                w.ends.push(Some((wire::ST_COMPLETE, wire::ABRT)));
+                // "the distinguished abort application status": whatever value the crate's public
+                // constant ExitStatus::ABORT carries, under protocol status RequestComplete
+                let abrt = match fastcgi_server::ExitStatus::ABORT {
+                    fastcgi_server::ExitStatus::Complete(c) => c,
+                    _ => wire::ABRT,
+                };
+                w.ends.push(Some((wire::ST_COMPLETE, abrt)));
             },
             Some(Err(_)) => {
                 w.ends.push(None);
@@ -592,7 +603,14 @@ pub fn check_clean_run(c: &ConnCase, b: &Built, m: &ConnModel, r: &RunResult) ->
         vensure!(w.eof_delivered, "conn-early-exit", "connection task ended before the peer closed a reusable connection");
     }
     let covered = model::match_replies_prefix(&m.e1, &g.mgmt).map_err(|e| Fail::new("conn-mgmt-replies", e))?;
-    let last_pre_end = b.spans[wk.reached - 1].1;
+    // (a connection that is torn down because the handler failed may take replies it had deferred
+    // with it: then only the records in front of the last *answered* request count)
+    let last_answered = wk.ends.iter().rposition(|e| e.is_some());
+    let last_pre_end = match (dropped_on_handler_error, last_answered) {
+        (false, _) => b.spans[wk.reached - 1].1,
+        (true, Some(i)) => b.spans[i].1,
+        (true, None) => 0,
+    };
     let must = m.e1.iter().take_while(|e| e.cause < last_pre_end).count();
     let must_mand = model::mandatory(&m.e1[..must]);
     vensure!(covered >= must || model::mandatory(&m.e1[..covered]) >= must_mand, "conn-mgmt-replies-missing", "only {covered} of the {must} replies owed for records up to the last served preamble were written");
